@@ -225,8 +225,8 @@ prop("C04", ["prims.go", "c04.go"],
 
 # ------------------------------------------------------------------------------------------------ C09
 prop("C09", ["prims.go", "c09a.go"],
-     [run("mux", "harnessC09a", ["accept-matched", "accept-timed-out", "probe-done", "stream-dropped-before-id"], dpor=True,
-          quick={"max_reversals": 1, "bound": "MuxBroker: optionally an inbound stream dropped by its peer before the ID was written, <= 2 inbound dials with IDs x1, x2 NOT assumed distinct at symbolic instants t1 <= t2, <= 1 local Accept(a) at tA, then a fresh matched pair after every timer expired; symbolic clock (ties explored), all schedules with <= 1 reversal; every inbound stream is accepted or closed by the broker"},
+     [run("mux", "harnessC09a", ["accept-matched", "accept-timed-out", "probe-done", "stream-dropped-before-id", "retry-of-timed-out-accept"], dpor=True,
+          quick={"max_reversals": 1, "bound": "MuxBroker: optionally an inbound stream dropped by its peer before the ID was written, <= 2 inbound dials with IDs x1, x2 NOT assumed distinct at symbolic instants t1 <= t2, <= 1 local Accept(a) at tA, then a matched pair after every timer expired, on a fresh ID or on the ID whose Accept timed out; symbolic clock (ties explored), all schedules with <= 1 reversal; every inbound stream is accepted or closed by the broker"},
           thorough={"max_reversals": 2, "max_wall_s": 1500, "bound": "as quick with <= 2 reversals"}),
       run("grpc", "harnessC09grpc", ["history-done", "lonely-accept", "fresh-pair", "retry-of-timed-out-id", "closed"], files=["prims.go", "c07.go"],
           quick={"bound": "GRPCBroker without multiplexing, real stream pumps: <= 2 Dial calls nobody accepts (IDs not assumed distinct) and <= 1 Accept nobody dials, at symbolic instants; then a routed pair (accept, symbolic gap <= 4 s, dial) on a fresh ID or on the ID whose dial timed out earlier; then Close of both brokers", "params": {"as_c07": 0}}),
